@@ -23,7 +23,7 @@ func zzH15_repr_eval() {
 	zzAssume(s[0] < 0x80)
 	by := zzString("b", 1)
 	i := zzI64("i")
-	m := int64(zzParam("maxint", 9999, 1000000))
+	m := int64(zzParam("maxint", 999, 99999))
 	zzAssume(zzAnd(i >= -m, i <= m))
 	zzAssume(zzOr(i >= 100, i <= -100))
 	var v Value
@@ -34,7 +34,7 @@ func zzH15_repr_eval() {
 		v = Tuple{Bytes(by)} // 1-tuple: trailing comma
 	case 2:
 		d := NewDict(2)
-		d.SetKey(String(s), Tuple{MakeInt64(i), None, True})
+		d.SetKey(String(s), Tuple{MakeInt(-1234567), None, True})
 		v = d
 	case 3:
 		v = NewList([]Value{NewList(nil), Tuple{}, NewDict(0), False, MakeInt(0), MakeInt(7), MakeInt(-42), Tuple{String(s + "\"" + s)}})
